@@ -18,7 +18,18 @@ def alias_sites(mod):
     for qn, fn in mod.functions.items():
         for n in ast.walk(fn):
             if isinstance(n, ast.Assign) and len(n.targets) > 1 and _mutable_display(n.value):
-                out.append((qn, n, [ast.unparse(t) for t in n.targets]))
+                # the alias matters when the object is changed through two of its names (each meant to collect something of its own);
+                # `local = self._memo = []` filled through the local only is one list with a handle
+                names = [ast.unparse(t) for t in n.targets]
+                changed = {ast.unparse(x.func.value) for x in ast.walk(fn) if isinstance(x, ast.Call) and isinstance(x.func, ast.Attribute)
+                           and x.func.attr in ("append", "extend", "insert", "pop", "remove", "clear", "add", "update", "setdefault", "sort", "reverse")}
+                changed |= {ast.unparse(x.value) for x in ast.walk(fn) if isinstance(x, ast.Subscript) and isinstance(x.ctx, (ast.Store, ast.Del))}
+                changed |= {ast.unparse(x.target) for x in ast.walk(fn) if isinstance(x, ast.AugAssign)}
+                # handed to a callee, which may change it (`operation(stack, altstack)`)
+                changed |= {ast.unparse(a_) for x in ast.walk(fn) if isinstance(x, ast.Call) for a_ in list(x.args) + [k_.value for k_ in x.keywords]
+                            if isinstance(a_, (ast.Name, ast.Attribute))}
+                if len([nm for nm in names if nm in changed]) >= 2:
+                    out.append((qn, n, names))
             for f in ("body", "orelse", "finalbody"):
                 v = getattr(n, f, None)
                 if not isinstance(v, list):
